@@ -1,5 +1,6 @@
-From PV.Model Require Import Machine Mapping Views Resources.
+From PV.Model Require Import Machine Mapping Views Resources ResourcesArt.
 From PV.Spec Require Import ResTree Ico.
+From PV.Spec Require Cur.
 Require Import ExtrOcamlBasic.
 Extraction Language OCaml.
 Extraction "../ocaml/gen/resources_model.ml"
@@ -9,4 +10,5 @@ Extraction "../ocaml/gen/resources_model.ml"
   pe_resources name_eq eq_string display_id sec_bytes
   name_matches t_get_ent t_get_dir t_find_resource t_find_resource_ex t_find_parts t_first as_bytes_l tgt_ent
   items_clean complete walk_sound kids_of t_manifest t_groups utf8_valid g_count
-  ico_encode.
+  display_text
+  ico_encode Cur.encode_file Cur.of_resources Cur.to_resources Cur.file_size.
